@@ -91,6 +91,7 @@ func objects() []obj {
 		{"LA", localA()}, {"LB", localB()},
 		{"map", map[string]interface{}{"A": "ma", "B": "mb", "M": "mm"}},
 		{"msi", map[string]string{"A": "sa", "Q": "sq"}},
+		{"mii", map[interface{}]interface{}{"A": "ia", "Q": "iq", 1: "one", true: "yes"}},
 	}
 }
 
@@ -303,6 +304,10 @@ func alphabet(thorough bool) []lookup {
 	add("*T6", "Zz")
 	add("LA", "A")
 	add("LB", "A")
+	// pointer-receiver methods reached through a struct VALUE: their own answer is left open, but
+	// they must not change what the pointer (or anything else) answers afterwards
+	add("T1", "PM")
+	add("T6", "Aa")
 	if thorough {
 		add("*T6", "Aa", "K")
 		add("T1", "B", "Arg", "Nope")
@@ -313,9 +318,13 @@ func alphabet(thorough bool) []lookup {
 		add("Deep", "P", "Q")
 		add("T5", "M5")
 		add("msi", "A", "Q")
+		add("mii", "A")
 		for i, o := range objs {
 			if o.name == "map" {
 				a = append(a, lookup{Obj: i, Attr: "B", Sub: true})
+			}
+			if o.name == "mii" {
+				a = append(a, lookup{Obj: i, Attr: "Q", Sub: true})
 			}
 		}
 	}
